@@ -3,6 +3,30 @@
 (property text only; nothing from /verif's machinery)"""
 import json, sys
 wt, pids = sys.argv[1], sys.argv[2:]
+# optional second round: a hint of which functions to rewrite (file/function names only; nothing about the verification machinery)
+FOCUS = {
+ "C01": "mc.py: the per-electron loop of vmc_worker and limdrift; sample_many.py: sample_overlap_worker",
+ "C02": "slater.py: sherman_morrison_ms, Slater.updateinternals/recompute; jastrowspin.py: updateinternals and the partial-sum bookkeeping",
+ "C03": "slater.py: Slater._testrow / testvalue / testvalue_many / gradient_value; multiplywf.py and addwf.py: testvalue*",
+ "C04": "func3d.py: polypadevalue / polypadegradvalue / polypadegradlap and the PolyPadeFunction methods; energy.py: kinetic",
+ "C05": "determinant_tools.py: binary_to_occ, create_packed_objects, flatten_determinants; pyscftools.py: the occupation bookkeeping",
+ "C06": "orbitals.py: the Bloch-phase / wrap handling of the periodic evaluator; coord.py: PeriodicConfigs.make_irreducible and electron()",
+ "C07": "dmc.py: limdrift, propose_drift_diffusion, compute_S, the weight update inside dmc_propagate, propose_tmoves",
+ "C08": "dmc.py: branch; coord.py: resample",
+ "C09": "reblock.py; mc.py: vmc_parallel and the block averaging; dmc.py: dmc_propagate_parallel",
+ "C10": "ewald.py: set_ewald_constants, ee_const / ei_const, energy(), generate_positive_gpoints / select_big; accumulators.py: EnergyAccumulator.__call__; energy.py: OpenCoulomb / ee_energy / ei_energy / ii_energy",
+ "C11": "ewald2d.py: ewald_recip_weight*, set_ewald_ion_ion, ewald_elec_ion, ewald_elec_elec (einsum contractions)",
+ "C12": "eval_ecp.py / ecp_accumulator.py: generate_quadrature_grids (the tables of points and weights), get_P_l",
+ "C13": "eval_ecp.py: ecp_mask and the stochastic selection; jax_ecp.py: downselect_move_info, evaluate_vl",
+ "C14": "hdftools.py and the restart blocks of dmc.rundmc and linemin.line_minimization",
+ "C15": "hdftools.py: setup_hdf / append_hdf and the callers in dmc.py / linemin.py",
+ "C16": "accumulators.py: LinearTransform (serialize/deserialize parameters and gradients); stochastic_reconfiguration.py",
+ "C17": "supercell.py: get_supercell_copies / get_supercell_kpts / get_supercell; twists.py: create_supercell_twists",
+ "C18": "pbc.py: enforce_pbc; distance.py: MinimalImageDistance / RawDistance; coord.py: PeriodicConfigs (move, mask, split, join, resample, hdf)",
+ "C19": "numba/spherical_harmonics.py: the SPH*_GRAD tables (e.g. hoist common powers, reorder independent assignments, rename temporaries); numba/gto.py: radial parts; numba/pbcgto.py",
+ "C20": "the keys()/shapes()/__call__/avg methods of the accumulators in accumulators.py, obdm.py, tbdm.py, s2_accumulator.py, stochastic_reconfiguration.py",
+}
+ROUND2 = bool(__import__("os").environ.get("ROUND2"))
 props = {}
 for l in open('/verif/properties.jsonl'):
     p = json.loads(l)
@@ -15,7 +39,7 @@ for pid in pids:
   statement: {p['statement']}
   quantifier: {p['quantifier']['text']}
   code anchors: {', '.join(p['anchors']['files'])}
-"""
+""" + (f"  rewrite this part of the code: {FOCUS[pid]}\n" if ROUND2 else "")
 print(f"""You are helping test a verification effort for the Python library WagnerGroup/pyqmc (real-space quantum Monte Carlo on PySCF inputs) by acting as an ordinary maintainer who REFACTORS code without changing behaviour. The verification machinery (which you cannot see) must stay quiet on such changes; I want to find out where it raises false alarms.
 
 Your scratch copy of the repository is the git worktree at {wt} (work ONLY there; never touch /repo or /verif; do not read anything under /verif). Python is /venv/bin/python; run code with  `cd {wt} && PYTHONPATH={wt} OMP_NUM_THREADS=1 /venv/bin/python ...`  (a harmless conda WARNING line is printed first by every shell command). There is no network. The first numba import of pyqmc.wf.numba.gto takes ~150 s to JIT; avoid it unless needed.
